@@ -12,10 +12,12 @@ open KG KG.Model.ClusterSync KG.Spec.ClusterSync KG.Lemmas.ClusterSync
 
 /-! ## facts regenerated from the sources on every run -/
 
-/-- the order of the sub-syncs in `ClusterInfo.Sync` the model mirrors is the one the source has now -/
+/-- the order of the steps of `ClusterInfo.Sync` the model mirrors is the one the source has now: the sub-syncs by
+    callee, and — by role, whatever field(s) they are stored in — the publication of dispatch policies and logging as the
+    last step, after everything that can fail -/
 theorem c11_sync_order :
     KG.Gen.C11.syncOrder = ["nameCheck", "c.syncFeatureGate", "c.flowcontrol.ResetLimiter", "c.flowcontrol.Sync",
-      "c.syncEndpoints", "c.syncSecureServingConfigLocked", "c.currentDispatchPolicies.Store", "c.currentLoggingConfig.Store"] ∧
+      "c.syncEndpoints", "c.syncSecureServingConfigLocked", "publish:DispatchPolicies+Logging"] ∧
     KG.Gen.C11.syncReturnsErrOf = ["c.syncFeatureGate", "c.syncEndpoints", "c.syncSecureServingConfigLocked"] := by
   decide
 
